@@ -98,6 +98,13 @@ theorem toInt_div (a n : I128) (h : n.toInt ≠ 0) : (GenNum.Int128_Div a n).toI
   unfold GenNum.Int128_Div; rw [hd]; simp only
   rw [hq, wrap128_eq, quo_eq_wrap _ _ (fits a) (fits n) h]
 
+/-- `Int128.Mod` (the model function of C01, total form) is the truncated remainder for a non-zero divisor -/
+theorem toInt_mod (a n : I128) (h : n.toInt ≠ 0) : (GenNum.Int128_Mod a n).toInt = a.toInt.tmod n.toInt := by
+  obtain ⟨q, r, e, _, hr⟩ := C01.idivMod_spec a n h
+  have hd : a.mod n = .ok r := by rw [(C01.idiv_eq_fst_divMod a n).2.1, e]; rfl
+  unfold GenNum.Int128_Mod; rw [hd]; simp only
+  exact hr
+
 theorem data_eq (a b : Gen.F128_Int) : a = b ↔ a.data.toInt = b.data.toInt := by
   cases a; cases b
   simp only [Gen.F128_Int.mk.injEq]
@@ -125,7 +132,7 @@ macro_rules
       (simp only [$ls,*, $ms,*, GenTie128.toInt_add, GenTie128.toInt_sub, GenTie128.toInt_mul, GenTie128.toInt_neg,
         GenTie128.toInt_abs, GenTie128.toInt_from64, GenTie128.toInt_cmp, GenTie128.toInt_sign, GenTie128.gt_eq,
         GenTie128.ge_eq, GenTie128.lt_eq, GenTie128.le_eq, GenTie128.eq_eq, GenTie128.isZero_eq, GenTie128.toInt_div,
-        GenTie128.data_eq, GenTie128.zero_toInt, GenTie128.data_ite, GenTie128.toInt_ite, ne_eq, BitVec.reduceToInt,
+        GenTie128.toInt_mod, GenTie128.data_eq, GenTie128.zero_toInt, GenTie128.data_ite, GenTie128.toInt_ite, ne_eq, BitVec.reduceToInt,
         Int.reduceEq, Int.reduceNe,
         not_false_eq_true, not_true_eq_false, Bool.not_eq_true', decide_eq_true_eq, decide_eq_false_iff_not]) <;>
       (try simp only [gen_def, gen_const, GenTie128.toInt_add, GenTie128.toInt_sub, GenTie128.toInt_mul,
